@@ -16,7 +16,7 @@ import (
 )
 
 var c16Floor = []string{"tpl.echo", "tpl.where", "tpl.in", "tpl.between", "tpl.func", "tpl.limit", "tpl.adjacent", "tpl.repeat", "tpl.protected.single", "tpl.protected.double", "tpl.protected.backtick", "tpl.protected.comment",
-	"arg.string", "arg.int", "arg.negint", "arg.float", "arg.bool", "arg.nil", "str.quote", "str.backslash", "str.comment", "str.control", "str.keyword", "str.multibyte", "err.missing", "err.unused", "err.dollar0"}
+	"arg.string", "arg.int", "arg.negint", "arg.float", "arg.bool", "arg.nil", "str.quote", "str.backslash", "str.comment", "str.control", "str.keyword", "str.multibyte", "err.missing", "err.unused", "err.dollar0", "prepared", "concurrent"}
 
 func init() {
 	fw.Register(&fw.Prop{
@@ -36,6 +36,7 @@ func init() {
 		MinNontrivial: 200,
 		Phases: []fw.Phase{
 			{Name: "inject", N: func(t fw.Tier) int { return pick(t, 60000, 2500000) }, Run: c16Run},
+			{Name: "concurrent", N: func(t fw.Tier) int { return pick(t, 300, 6000) }, Run: c16Concurrent, Batch: 20},
 		},
 		Witness: c16Witness,
 	})
@@ -232,6 +233,9 @@ func c16Run(c *fw.Case) {
 	if strings.HasPrefix(force, "tpl.") {
 		kind = force
 	}
+	if force == "concurrent" {
+		force = ""
+	}
 	if strings.HasPrefix(force, "err.") {
 		c16Errors(c, force)
 		return
@@ -333,6 +337,29 @@ func c16Run(c *fw.Case) {
 	if err != nil {
 		c.Violate("error", fmt.Sprintf("SanitizeSQL failed on a well-formed template: %v", err), det)
 		return
+	}
+	// prepared commands: two parsed templates alive at the same time must not
+	// influence each other (NewQuery + Command.Sanitize is the same machinery
+	// SanitizeSQL uses in one step)
+	if force == "prepared" || c.Chance(0.25) {
+		c.Feature("prepared")
+		otherTpl := "SELECT $2 AS zz /* other $9 */ FROM t WHERE s1 = $1 -- tail"
+		var fs []string
+		otherArgs := []any{c16Arg(c, "string", &fs), c16Arg(c, "", &fs)}
+		otherWant, _, _, _ := sanitizeSafe(otherTpl, otherArgs)
+		cmdA, errA := sanitize.NewQuery(tpl)
+		cmdB, errB := sanitize.NewQuery(otherTpl)
+		if errA != nil || errB != nil {
+			c.Violate("error", fmt.Sprintf("NewQuery failed: %v %v", errA, errB), det)
+			return
+		}
+		outB, eB := cmdB.Sanitize(otherArgs...)
+		outA, eA := cmdA.Sanitize(t.args...)
+		if eA != nil || eB != nil || outA != out || outB != otherWant {
+			det["prepared_a"], det["prepared_b"], det["expected_b"] = outA, outB, otherWant
+			c.Violate("prepared-interference", fmt.Sprintf("two prepared commands alive at once interfere: %q (want %q) / %q (want %q), errors %v %v", short(outA, 120), short(out, 120), short(outB, 120), short(otherWant, 120), eA, eB), det)
+			return
+		}
 	}
 	// (4) static text survives verbatim
 	if !piecesSurvive(out, t.pieces) {
@@ -521,4 +548,87 @@ func c16Witness(c *fw.Case, w *fw.Finding) {
 	if !val.Equal(o.Rows[0], expect) {
 		c.Violate("echo", fmt.Sprintf("witness %s: echo %s, expected %s", w.ID, val.Canon(o.Rows[0]), val.Canon(expect)), det)
 	}
+}
+
+// c16Concurrent: SanitizeSQL called from several goroutines at once must
+// return what it returns when called alone (no shared lexer / buffer state).
+func c16Concurrent(c *fw.Case) {
+	type job struct {
+		tpl  string
+		args []any
+		want string
+		werr bool
+		got  string
+		gerr bool
+		pan  any
+	}
+	G := 2 + c.Intn(7)
+	jobs := make([][]*job, G)
+	tpls := []string{"SELECT $1 AS v FROM dual", "SELECT rid FROM t WHERE s1 = $1 AND n1 > $2", "SELECT $1 AS a, $2 AS b, $1 AS c FROM dual /* $3 */", "SELECT rid FROM t WHERE s1 IN ($1, $2, $3) -- $4",
+		"SELECT '$2' AS x, $1 AS v FROM `t$3`", "SELECT $2 AS a FROM dual", "SELECT $0 AS a FROM dual"}
+	var fs []string
+	for g := range jobs {
+		for i := 0; i < 12; i++ {
+			tpl := gen.Pick(c.R, tpls)
+			n := strings.Count(tpl, "$1") + strings.Count(tpl, "$2") + strings.Count(tpl, "$3")
+			nargs := 1
+			if strings.Contains(tpl, " $2") || strings.Contains(tpl, "($1, $2") {
+				nargs = 2
+			}
+			if strings.Contains(tpl, ", $3)") {
+				nargs = 3
+			}
+			_ = n
+			args := make([]any, nargs)
+			for k := range args {
+				args[k] = c16Arg(c, "", &fs)
+			}
+			j := &job{tpl: tpl, args: args}
+			w, err, pan, _ := sanitizeSafe(tpl, args)
+			if pan != nil {
+				c.Violate("panic", fmt.Sprintf("SanitizeSQL panicked: %v", pan), map[string]any{"template": tpl})
+				return
+			}
+			j.want, j.werr = w, err != nil
+			jobs[g] = append(jobs[g], j)
+		}
+	}
+	done := make(chan struct{}, G)
+	start := make(chan struct{})
+	for g := range jobs {
+		go func(js []*job) {
+			<-start
+			for rep := 0; rep < 4; rep++ {
+				for _, j := range js {
+					out, err, pan, _ := sanitizeSafe(j.tpl, j.args)
+					if pan != nil || (err != nil) != j.werr || out != j.want {
+						j.got, j.gerr, j.pan = out, err != nil, pan
+						if j.pan == nil && j.got == "" && !j.gerr {
+							j.got = "(empty)"
+						}
+					}
+				}
+			}
+			done <- struct{}{}
+		}(jobs[g])
+	}
+	close(start)
+	for range jobs {
+		<-done
+	}
+	c.Feature("concurrent")
+	total := 0
+	for g, js := range jobs {
+		for _, j := range js {
+			total++
+			if j.pan != nil || j.got != "" || j.gerr != j.werr && j.got != "" {
+				c.Violate("concurrent-interference", fmt.Sprintf("goroutine %d: SanitizeSQL(%q) under concurrency returned %q (error=%v, panic=%v), alone it returns %q (error=%v)", g, j.tpl, short(j.got, 160), j.gerr, j.pan, short(j.want, 160), j.werr),
+					map[string]any{"template": j.tpl, "alone": j.want, "concurrent": j.got})
+				return
+			}
+		}
+	}
+	c.Evals(total * 4)
+	c.Sample(map[string]any{"goroutines": G, "calls": total * 4, "example_template": jobs[0][0].tpl})
+	c.Nontrivial(fmt.Sprint("concurrent", c.Idx))
 }
